@@ -130,13 +130,13 @@ impl fmt::Debug for CStr {
 					f.write_str("\\\\")?;
 				},
 				0x20...0x7E => {
-					let (s, tail) = split_f(bytes, |&byte| byte < 0x20 || byte >= 0x80 || byte == b'"' || byte == b'\\');
+					let (s, tail) = split_f(bytes, |&byte| byte < 0x20 || byte >= 0x7F || byte == b'"' || byte == b'\\');
 					bytes = tail;
 					let s = unsafe { str::from_utf8_unchecked(s) };
 					f.write_str(s)?;
 				},
 				_ => {
-					let (s, tail) = split_f(bytes, |&byte| byte >= 0x20 && byte < 0x80);
+					let (s, tail) = split_f(bytes, |&byte| byte >= 0x20 && byte < 0x7F);
 					bytes = tail;
 					for &byte in s {
 						write!(f, "\\x{:02X}", byte)?;
